@@ -492,6 +492,22 @@ func TestC20Table(t *testing.T) {
 			}
 		}
 		to := time.Duration(row.Ticks) * U
+		if row.Op == "discover" {
+			// discovery first opens a socket and joins the group (milliseconds, more on a loaded machine): its ticks are
+			// twice as long, so that an arrival of tick 0 comes 10 ms after the call
+			script = script[:0]
+			for _, a := range row.Arr {
+				k := a.Kind
+				switch k {
+				case "match":
+					k = want
+				case "other":
+					k = "alien-" + want
+				}
+				script = append(script, scriptEntry{D: int((time.Duration(a.T)*2*U + U/2) / time.Microsecond), K: k})
+			}
+			to = time.Duration(row.Ticks) * 2 * U
+		}
 		if row.Op == "describe" {
 			runDescribe(o, t, to, script, slack, fill)
 		} else if okMC {
